@@ -4,7 +4,7 @@ SUB = {"(*" + P + "PID).Tell": P + "vC19_tell",
        "(*" + C + "cluster).putRecordIfAbsent": C + "vC19_putIfAbsent"}
 CHECK = {
     "id": "C19",
-    "packages": ["./actor", "./internal/cluster"],
+    "packages": ["./actor"],
     "harness": ["actor/zz_verif_c19.go", "internal/cluster/zz_verif_c19.go"],
     "descend_extra": ["github.com/reugn/go-quartz"],
     "entries": [
@@ -15,6 +15,13 @@ CHECK = {
     ],
     "opts": {"unwind": 8, "substitute": SUB},
     "stop": list(SUB.keys()),
-    "explanation": "",
-    "bounds": {},
+    "timeout_ms": {"quick": 900000, "thorough": 3000000},
+    "explanation": "Kernel only (delivery timing is go-quartz's and outside the claim). vC19_book: (*scheduler).ScheduleOnce / Schedule / CancelSchedule / PauseSchedule / ResumeSchedule / ListSchedules / recordSchedule / makeJobFn, newScheduleConfig, WithReference, the real xsync.Map bookkeeping and the real go-quartz JobKey/JobDetail/FunctionJob/trigger constructors are executed symbolically for every sequence of K operations over two references, on a started or stopped scheduler, against the set of live (scheduled, not cancelled) references; "
+                   "the quartz scheduler is a harness stand-in (a keyed job set with pause flags); firing a job that is still scheduled runs the real job function, with (*PID).Tell substituted by a recorder. "
+                   "vC19_claim: N nodes (own scheduler and actor system each) handle the same cron schedule: real makeJobFn + claimClusterFire + (*cluster).ClaimScheduleFire, with (*cluster).putRecordIfAbsent substituted by one shared put-if-absent registry (stored / already present / storage failure); per node symbolic: which of two ticks, lag (library clock: arbitrary non-decreasing), tick metadata present, cluster engine present / running, storage failure. "
+                   "The registry write is one atomic storage operation per node, so all interleavings of the racing nodes are the orders in which the harness runs them (the tick chosen per node is arbitrary). fmt.Sprintf is substituted in this entry by an exact equivalent for the claim key format and the two tick times (asserted). "
+                   "vC19_ttl: cronClaimTTL for a trigger with arbitrary next-fire times / errors is within [1 min, 24 h] and equals the period inside the bounds.",
+    "bounds": {"book": "quick 3 / thorough 4 operations, 2 references", "claim": "quick 2 / thorough 3 nodes, 2 ticks, ttl in [1 min, 24 h]", "registry": "entries do not expire during the scenario (claim-entry expiry vs. the stale-tick rule is not modelled)"},
+    "assumptions": ["go-quartz is replaced by a keyed job set: its timing, misfire and execution semantics are outside the claim", "registry entries outlive the scenario (TTL expiry of claim entries is not modelled)",
+                    "a node's registry write is atomic (olric NX put)"],
 }
